@@ -239,7 +239,12 @@ fn scenarios(abs: &[u32], rel: &[u32]) -> (Vec<(u8, u8, u8)>, Vec<(u32, u32)>) {
     (vecs, reps)
 }
 
-/// Candidate witnesses: library satisfactions and their mutations.
+/// Candidate witnesses: library satisfactions and their mutations.  Mutations are taken in
+/// priority order, round-robin over the library satisfactions, until the cap is reached:
+/// (1) one element replaced by empty, (2) by a valid signature of some key, (3) dropped,
+/// (4) neighbours swapped, (5) replaced by 1, (6) by an invalid signature, (7) duplicated,
+/// (8) replaced by junk / 32 zero bytes, (9) one more element on top / at the bottom; then
+/// hash-selected double mutations.
 fn candidates(bases: &[&GWit], nkeys: usize, cap: usize, seed: u64, name: &str) -> (Vec<Vec<El2>>, Vec<String>) {
     let mut cands: Vec<Vec<El2>> = vec![];
     let mut how: Vec<String> = vec![];
@@ -253,66 +258,87 @@ fn candidates(bases: &[&GWit], nkeys: usize, cap: usize, seed: u64, name: &str) 
         add(b.els.clone(), format!("lib{bi}"), &mut cands, &mut how);
     }
     let nbase = cands.len();
-    let single = |w: &Vec<El2>, nkeys: usize| -> Vec<(Vec<El2>, String)> {
-        let mut out = vec![];
+    // single mutations of one witness, grouped by priority class
+    let single = |w: &Vec<El2>, nkeys: usize| -> Vec<Vec<(Vec<El2>, String)>> {
+        let mut cls: Vec<Vec<(Vec<El2>, String)>> = vec![vec![]; 9];
+        let rep = |w: &Vec<El2>, i: usize, r: El2| -> Option<(Vec<El2>, String)> {
+            if r == w[i] {
+                return None;
+            }
+            let mut d = w.clone();
+            d[i] = r;
+            Some((d, format!("rep{i}:{}/{}/{}", r.0, r.1, r.2)))
+        };
         for i in 0..w.len() {
+            cls[0].extend(rep(w, i, El2(tag::EMPTY, 0, 0)));
+            for k in 0..nkeys as u8 {
+                cls[1].extend(rep(w, i, El2(tag::SIG, k, 1)));
+            }
             let mut d = w.clone();
             d.remove(i);
-            out.push((d, format!("drop{i}")));
-            let mut d = w.clone();
-            d.insert(i, w[i]);
-            out.push((d, format!("dup{i}")));
+            cls[2].push((d, format!("drop{i}")));
             if i + 1 < w.len() {
                 let mut d = w.clone();
                 d.swap(i, i + 1);
-                out.push((d, format!("swap{i}")));
+                cls[3].push((d, format!("swap{i}")));
             }
-            let mut reps = vec![El2(tag::EMPTY, 0, 0), El2(tag::ONE, 0, 0), El2(tag::JUNK, 1, 32), El2(tag::JUNK, 2, 20), El2(tag::ZERO32, 0, 0)];
-            for k in 0..nkeys as u8 {
-                reps.push(El2(tag::SIG, k, 1));
-            }
+            cls[4].extend(rep(w, i, El2(tag::ONE, 0, 0)));
             if w[i].0 == tag::SIG {
-                reps.push(El2(tag::SIG, w[i].1, 0));
+                cls[5].extend(rep(w, i, El2(tag::SIG, w[i].1, 0)));
             }
-            for r in reps {
-                if r != w[i] {
-                    let mut d = w.clone();
-                    d[i] = r;
-                    out.push((d, format!("rep{i}:{}/{}/{}", r.0, r.1, r.2)));
-                }
+            let mut d = w.clone();
+            d.insert(i, w[i]);
+            cls[6].push((d, format!("dup{i}")));
+            for r in [El2(tag::JUNK, 1, 32), El2(tag::JUNK, 2, 20), El2(tag::ZERO32, 0, 0)] {
+                cls[7].extend(rep(w, i, r));
             }
         }
-        // one more element on top / at the bottom
         for r in [El2(tag::EMPTY, 0, 0), El2(tag::ONE, 0, 0), El2(tag::JUNK, 1, 32)] {
             let mut d = w.clone();
             d.push(r);
-            out.push((d, format!("top:{}", r.0)));
+            cls[8].push((d, format!("top:{}", r.0)));
             let mut d = w.clone();
             d.insert(0, r);
-            out.push((d, format!("bottom:{}", r.0)));
+            cls[8].push((d, format!("bottom:{}", r.0)));
         }
-        out
+        cls
     };
-    let mut muts: Vec<(Vec<El2>, String)> = vec![];
-    for bi in 0..nbase {
-        let b = cands[bi].clone();
-        let s1 = single(&b, nkeys);
-        for (m, h) in &s1 {
-            muts.push((m.clone(), format!("lib{bi}+{h}")));
+    let per_base: Vec<Vec<Vec<(Vec<El2>, String)>>> = (0..nbase).map(|bi| single(&cands[bi].clone(), nkeys)).collect();
+    // priority classes outermost, bases round-robin, positions hash-ordered inside a class
+    'fill: for c in 0..9 {
+        let mut lists: Vec<Vec<(Vec<El2>, String)>> = per_base.iter().map(|p| p[c].clone()).collect();
+        for l in lists.iter_mut() {
+            l.sort_by_key(|(m, _)| hash_str(&format!("{name}{m:?}"), seed + 3));
         }
-        // double mutations: a hash-selected subset
-        for (m, h) in s1.iter().filter(|(m, _)| hash_str(&format!("{name}{m:?}"), seed) % 5 == 0) {
-            for (m2, h2) in single(m, nkeys).into_iter().filter(|(m2, _)| hash_str(&format!("{name}{m2:?}x"), seed) % 7 == 0) {
-                muts.push((m2, format!("lib{bi}+{h}+{h2}")));
+        let longest = lists.iter().map(|l| l.len()).max().unwrap_or(0);
+        for k in 0..longest {
+            for (bi, l) in lists.iter().enumerate() {
+                if let Some((m, h)) = l.get(k) {
+                    if cands.len() >= cap {
+                        break 'fill;
+                    }
+                    add(m.clone(), format!("lib{bi}+{h}"), &mut cands, &mut how);
+                }
             }
         }
     }
-    muts.sort_by_key(|(m, _)| hash_str(&format!("{name}{m:?}"), seed + 3));
-    for (m, h) in muts {
-        if cands.len() >= cap {
-            break;
+    // double mutations: a hash-selected subset
+    if cands.len() < cap {
+        let mut muts: Vec<(Vec<El2>, String)> = vec![];
+        for (bi, p) in per_base.iter().enumerate() {
+            for (m, h) in p.iter().flatten().filter(|(m, _)| hash_str(&format!("{name}{m:?}"), seed) % 5 == 0) {
+                for (m2, h2) in single(m, nkeys).into_iter().flatten().filter(|(m2, _)| hash_str(&format!("{name}{m2:?}x"), seed) % 7 == 0) {
+                    muts.push((m2, format!("lib{bi}+{h}+{h2}")));
+                }
+            }
         }
-        add(m, h, &mut cands, &mut how);
+        muts.sort_by_key(|(m, _)| hash_str(&format!("{name}{m:?}"), seed + 5));
+        for (m, h) in muts {
+            if cands.len() >= cap {
+                break;
+            }
+            add(m, h, &mut cands, &mut how);
+        }
     }
     (cands, how)
 }
